@@ -319,15 +319,25 @@ theorem nfcPure_le (xs : List Nat) (h : ∀ c ∈ xs, c ≤ UniCompos.unicodeMax
       rw [← this]; exact hc.1
     · cases hp
 
-/-- two successful NFC calls: the second changes nothing -/
-theorem wcsnormS_nfc_twice (dmax dmax' : Nat) (src : List Nat) (h0 : ∀ c ∈ src, c ≠ 0)
-    (h1 : (wcsnormS allFixed 1 dmax src).ret = 0) (h2 : (wcsnormS allFixed 1 dmax' (wcsnormS allFixed 1 dmax src).out).ret = 0) :
-    (wcsnormS allFixed 1 dmax' (wcsnormS allFixed 1 dmax src).out).out = (wcsnormS allFixed 1 dmax src).out := by
-  obtain ⟨e1, _, _, e4⟩ := wcsnormS_nfc_spec allFixed dmax src h0 h1
+/-- the pair map, hence NFC, depends on the `compCast` switch only (`rangeChk` is a test in the loops, `foldRoom` concerns wcsfc_s) -/
+theorem pcOf_compCast {fx : Fixes} (h : fx.compCast = true) : pcOf fx = pcOf allFixed := by
+  funext a b
+  have h2 : allFixed.compCast = true := rfl
+  simp only [pcOf, compositeCp, h, h2]
+
+theorem nfcPure_compCast {fx : Fixes} (h : fx.compCast = true) (xs : List Nat) : nfcPure fx xs = nfcPure allFixed xs := by
+  unfold nfcPure; rw [pcOf_compCast h]
+
+/-- two successful NFC calls: the second changes nothing (any model with the full-width comparison of `_composite_cp`) -/
+theorem wcsnormS_nfc_twice (fx : Fixes) (hfx : fx.compCast = true) (dmax dmax' : Nat) (src : List Nat) (h0 : ∀ c ∈ src, c ≠ 0)
+    (h1 : (wcsnormS fx 1 dmax src).ret = 0) (h2 : (wcsnormS fx 1 dmax' (wcsnormS fx 1 dmax src).out).ret = 0) :
+    (wcsnormS fx 1 dmax' (wcsnormS fx 1 dmax src).out).out = (wcsnormS fx 1 dmax src).out := by
+  obtain ⟨e1, _, _, e4⟩ := wcsnormS_nfc_spec fx dmax src h0 h1
   rw [e1] at h2 ⊢
+  rw [nfcPure_compCast hfx] at h2 ⊢
   have hne := nfcPure_le src (fun c hc => ⟨e4 c hc, h0 c hc⟩)
-  obtain ⟨f1, _, _, _⟩ := wcsnormS_nfc_spec allFixed dmax' (nfcPure allFixed src) (fun c hc => (hne c hc).2) h2
-  rw [f1]
+  obtain ⟨f1, _, _, _⟩ := wcsnormS_nfc_spec fx dmax' (nfcPure allFixed src) (fun c hc => (hne c hc).2) h2
+  rw [f1, nfcPure_compCast hfx]
   exact nfcPure_idem src e4
 
 #print axioms SafeC.UAX15.nfc_idem
